@@ -51,6 +51,7 @@ class _Hooks:
         self.slices = []
         self.diff_of = None
         self.ret = None
+        self.leaks = []
         A = ev.A
         self.dt = A.sym('dt')
         v = lambda n: [A.sym('%s_%s' % (n, c)) for c in 'xyz']
@@ -149,6 +150,30 @@ class _Hooks:
             if shifts[0] == 1:
                 return self.generic(pieces[0].group, 'cur')
             raise Unsupported('readings shifted by %d samples' % shifts[0])
+        if q == 'numpy.roll' and args and isinstance(args[0], SArray) and \
+                args[0].shape == (3,) and set(kwargs) <= {'shift', 'axis'}:
+            # the (n, 3) readings of the generic sample: a roll along the component axis permutes
+            # the components; a roll of the FLATTENED array (no axis) by k moves element (i, j) to
+            # flat position 3i + j + k, so 3 - (k mod 3) components stay in their row and the
+            # others are taken from a neighbouring sample's row (and wrap around the record)
+            shift = kwargs.get('shift', args[1] if len(args) > 1 else None)
+            axis = kwargs.get('axis', args[2] if len(args) > 2 else None)
+            if not isinstance(shift, int) or isinstance(shift, bool):
+                raise Unsupported('roll by %r' % (shift,))
+            a = args[0]
+            if axis in (1, -1):
+                return self.vec([a.get(((j - shift) % 3,)) for j in range(3)])
+            if axis is None and shift % 3:
+                out = []
+                for j in range(3):
+                    src = j - shift
+                    x = a.get((src % 3,))
+                    if src // 3:
+                        x = ev.A.func('othersample', ev.A.const(-(src // 3)), x)
+                        self.leaks.append((node, shift))
+                    out.append(x)
+                return self.vec(out)
+            raise Unsupported('roll of the readings along the sample axis')
         if q == 'numpy.diff':
             self.diff_of = args[0]
             return self.dt
@@ -197,7 +222,30 @@ def _run(ctx, mode, alg):
              'returned table data/columns not recognised')
     ctx.need(len(cols) == data.shape[0], 'columns/data length mismatch')
     table = {c: data.get((i,)) for i, c in enumerate(cols)}
+    bad = [c for c in table if isinstance(table[c], Rat) and
+           any(a.startswith('othersample(') for a in _all_atoms(ev.A, table[c]))]
+    if bad:
+        if not ctx.cache.get('cs-leak'):
+            ctx.cache['cs-leak'] = True
+            ctx.rule('CS-SLICE', 'previous=[:-1], current=[1:], dt=diff(index), index=index[1:], '
+                     'documented Increments columns')
+            lk = h.leaks[0]
+            ctx.ob('CS-SLICE', False, None, 'every interval pairs sample k-1 with sample k', f=f,
+                   node=lk[0], key='other-sample',
+                   why='`%s` rolls the flattened (n, 3) readings (no axis): some components move '
+                       'into the neighbouring sample\'s row, so column(s) %s of interval k are '
+                       'computed from readings outside samples k-1 and k (and the end of the '
+                       'record wraps around to its start)' % (norm_text(lk[0])[:60], bad))
+        raise AnalysisError('compute_increments_from_imu (%s): rows mix samples' % mode)
     return f, ev, h, table, index, node
+
+
+def _all_atoms(A, v):
+    out = set()
+    for at in (v.n.atoms() | v.d.atoms()):
+        out.add(at)
+        out |= A._nested_atoms(at)
+    return out
 
 
 def cs_rules(ctx):
